@@ -21,12 +21,17 @@ type faultCase struct {
 	N     int    // 1-based occurrence
 	K     int    // calls in flight
 	CB    bool   // the failing side's first gated call is issued from inside its ForRemotes callback
+	Wrap  string // "" | deadline | canceled: the injected failure wraps the context package's error of that name
+	            // (a transport with its own per-read timeout / per-connection context), the LINK's context stays live
 }
 
 func (f faultCase) String() string {
 	cb := ""
 	if f.CB {
 		cb = " in-callback"
+	}
+	if f.Wrap != "" {
+		cb += " wraps-context-" + f.Wrap
 	}
 	return fmt.Sprintf("%s/%s %s.%s#%d k=%d%s", f.API, f.Codec, f.Side, f.Op, f.N, f.K, cb)
 }
@@ -49,6 +54,12 @@ func runFaultCase[T any](codec Codec[T], fc faultCase, record bool) *faultOutcom
 	out := &faultOutcome{}
 	plan := NewFaultPlan()
 	plan.Record = record
+	switch fc.Wrap {
+	case "deadline":
+		plan.Wrap = context.DeadlineExceeded
+	case "canceled":
+		plan.Wrap = context.Canceled
+	}
 	var p *Pair[T]
 	firedAt := make(chan string, 1)
 	if fc.Op == "cancel" {
@@ -372,6 +383,11 @@ func runFaultSuite(rep *Report, tier string, seed int64, prop string) {
 					run(fc, runFaultCase(jsonRaw(), fc, false))
 					if r == 0 && fc.N <= 2 {
 						fc.CB = true
+						run(fc, runFaultCase(jsonRaw(), fc, false))
+						fc.CB = false
+					}
+					if r == 0 && fc.N <= 2 && fc.Op != "cancel" {
+						fc.Wrap = []string{"deadline", "canceled"}[fc.N%2]
 						run(fc, runFaultCase(jsonRaw(), fc, false))
 					}
 				}
